@@ -307,6 +307,27 @@ def _ob_create_data_frame(ai: int, ni: int) -> bool:
                   lambda: blk.create_data_frame("valid-name", "t", col_names=["a"], col_dtypes=[int]))
 
 
+def _ob_feature_data_setter(li: int, ii: int, first: int) -> bool:
+    """
+    pre: 0 <= li < 3 and 0 <= ii < 8 and 0 <= first < 2
+    post: __return__
+    """
+    import nixio
+    E = _fixture()
+    blk, blk2, tag = E["blk"], E["blk2"], E["tag"]
+    with untraced():
+        fr = blk.create_data_frame("fr", "t", col_names=["c"], col_dtypes=[float], data=[(1.5,), (2.5,)])
+        fr2 = blk2.create_data_frame("fr", "t", col_names=["c"], col_dtypes=[float], data=[(1.5,)])
+    ltype = _pick([nixio.LinkType.Tagged, nixio.LinkType.Untagged, nixio.LinkType.Indexed], li)
+    start = E["da1"] if (first == 0 or li == 0) else fr          # what the feature points to before
+    feat = tag.create_feature(start, ltype)
+    new = _pick([E["da"], E["foreign_da"], fr, fr2, None, tag, 5, E["da1"]], ii)
+
+    def setit():
+        feat.data = new
+    return _judge(E, setit, lambda: setattr(feat, "data", E["da"]))
+
+
 def _ob_link_frame(ii: int, di: int, hist: int) -> bool:
     """
     pre: 0 <= ii < 8 and 0 <= di < 2 and 0 <= hist < 3
@@ -335,12 +356,14 @@ def _ob_link_frame(ii: int, di: int, hist: int) -> bool:
 # ---------------------------------------------------------------------------
 def _ob_append_data(vi: int, ax: int) -> bool:
     """
-    pre: 0 <= vi < 5 and 0 <= ax < 2
+    pre: 0 <= vi < 7 and 0 <= ax < 2
     post: __return__
     """
     E = _fixture()
     da = E["da"]          # shape (2, 3)
-    data = _pick([[[7.0, 8.0, 9.0]], [[7.0, 8.0]], [7.0, 8.0, 9.0], [[7.0], [8.0]], [[[1.0]]]], vi)
+    # ... rows of the right shape that cannot be converted to the array's element type
+    data = _pick([[[7.0, 8.0, 9.0]], [[7.0, 8.0]], [7.0, 8.0, 9.0], [[7.0], [8.0]], [[[1.0]]],
+                  [["a", "b", "c"]], [["a"], ["b"]]], vi)
     return _judge(E, lambda: da.append(data, axis=ax), lambda: da.append([[7.0, 8.0, 9.0]], axis=0))
 
 
@@ -441,7 +464,7 @@ def _api_picture(f):
             out = []
             for ft in t.features:
                 try:
-                    out.append((ft.data.name, str(ft.link_type)))
+                    out.append((ft.data.name, type(ft.data).__name__, str(ft.link_type)))
                 except Exception as e:  # noqa
                     out.append(("unreadable", type(e).__name__))
             return out
@@ -579,6 +602,9 @@ OBLIGATIONS = [
        functions=["nixio.block.Block.create_data_frame", "nixio.data_frame.DataFrame.create_new"],
        replay=_mk_replay("_ob_create_data_frame"),
        outside="twelve argument classes x five name classes (fresh, empty, with slash, duplicate, id text of a sibling)"),
+    Ob("feature_data_setter", _ob_feature_data_setter, timeout=600,
+       functions=["nixio.feature.Feature.data"], replay=_mk_replay("_ob_feature_data_setter"),
+       outside="an existing feature of each link type on an array or a data frame; eight candidate values"),
     Ob("link_data_frame_args", _ob_link_frame, timeout=600,
        functions=["nixio.dimensions.Dimension.link_data_frame", "nixio.dimensions.RangeDimension.link_data_frame",
                   "nixio.dimensions.DimensionLink.create_new"],
